@@ -319,6 +319,16 @@ static Case gen_c15(Chooser& ch) {
     } else if (k == 1) { int ai = (int)ch.pick((size_t)na); size_t kk = ch.range(1, 30); if (g.next_slot + (int)kk > NSLOTS) continue; int s0 = g.next_slot; g.next_slot += (int)kk;
       g.out.push_back(Op("talloc").u("s", (uint64_t)s0).u("k", kk).u("n", ch.chance(1, 2) ? ch.of(g_classes) : ch.range(1, 300*KiB)).u("ar", (uint64_t)ai)); for (size_t i = 0; i < kk; i++) g.note_alloc(s0 + (int)i, 0, 1, 0, false, -1); g.groups.push_back({ s0, (int)kk, 0 });
     } else if (k == 2 && ch.chance(1, 3)) { g.out.push_back(Op("acap").u("ar", (uint64_t)ch.pick((size_t)na)));
+    } else if (k == 3 && ch.chance(1, 2)) {
+      // adoption pressure: a helper thread with a heap bound to the arena exits leaving blocks, then an unbound heap asks for fresh segments many times
+      // (every such request visits the abandoned segment once more) and finally allocates the size class the thread left behind
+      int ai = (int)ch.pick((size_t)na); size_t kk = ch.range(2, 12), tn = ch.chance(1, 2) ? ch.of(g_classes) : ch.range(8, 4000); size_t nbig = ch.range(100, 190), nsm = ch.range(10, 200);
+      if (g.next_slot + (int)(kk + nbig + nsm) > NSLOTS || g.live_bytes + nbig * MiB > 400*MiB) continue;
+      int s0 = g.next_slot; g.next_slot += (int)kk; g.out.push_back(Op("talloc").u("s", (uint64_t)s0).u("k", kk).u("n", tn).u("ar", (uint64_t)ai)); for (size_t i = 0; i < kk; i++) g.note_alloc(s0 + (int)i, 0, 1, 0, false, -1); g.groups.push_back({ s0, (int)kk, 0 });
+      int hb = (g.heaps[5].alive && ch.chance(1, 3)) ? 5 : 0;
+      int s1 = g.next_slot; g.next_slot += (int)nbig; { Op op("fill"); op.u("s", (uint64_t)s1).u("k", nbig).s("f", "malloc").u("n", MiB - 64).u("nt", 1); if (hb) op.u("h", (uint64_t)hb); g.out.push_back(op); } for (size_t i = 0; i < nbig; i++) g.note_alloc(s1 + (int)i, MiB - 64, 1, 0, false, hb ? hb : g.def); g.groups.push_back({ s1, (int)nbig, MiB - 64 });
+      int s2 = g.next_slot; g.next_slot += (int)nsm; { Op op("fill"); op.u("s", (uint64_t)s2).u("k", nsm).s("f", "malloc").u("n", tn); if (hb) op.u("h", (uint64_t)hb); g.out.push_back(op); } for (size_t i = 0; i < nsm; i++) g.note_alloc(s2 + (int)i, tn, 1, 0, false, hb ? hb : g.def); g.groups.push_back({ s2, (int)nsm, tn });
+      g.out.push_back(Op("rfree").u("s", (uint64_t)s1).u("k", nbig).u("step", 1).u("ph", 0)); for (size_t i = 0; i < nbig; i++) g.note_free(s1 + (int)i);
     } else g.step();
   }
   return g.out;
